@@ -10,3 +10,5 @@ use std::collections::BTreeMap;
 use std::io::{BufWriter, ErrorKind, Read, Write};
 use std::fs::{File, OpenOptions};
 verus! {
+// 64-bit target assumed (stated in the evidence): usize is 8 bytes
+global size_of usize == 8;
